@@ -249,6 +249,7 @@ def main(argv=None):
     ap.add_argument('--seed', type=int, default=int(os.environ.get('VERIF_SEED', '20261001')))
     ap.add_argument('--no-min', action='store_true')
     ap.add_argument('--digest', action='store_true', help='print one digest over the event logs of the batch and exit')
+    ap.add_argument('--part-json', help='(internal) run one sub-batch of a thorough run and dump its totals here')
     a = ap.parse_args(argv)
     reexec_if_needed()
     check_import()
@@ -271,9 +272,38 @@ def main(argv=None):
                                                                      a.jobs, h, dict(total['status'])))
         return 0
     t0 = time.time()
-    known = findings.report_known(focus)
-    regress_bad = run_regressions(focus)
-    total = batch(focus, a.seed, a.tier, a.runs, a.jobs, a.wall)
+    known = [] if a.part_json else findings.report_known(focus)
+    regress_bad = [] if a.part_json else run_regressions(focus)
+    profile = {'tier': a.tier}
+    sub = []
+    if a.tier == 'thorough' and not a.part_json:
+        # three sub-batches under different PYTHONHASHSEEDs (0 here, 1 and 4242 in fresh interpreters)
+        b = BUDGET['thorough']
+        runs3 = (a.runs or int(b['runs'] * RUNS_SCALE.get(focus, 1.0))) // 3
+        wall3 = (a.wall or b['wall']) // 3
+        total = batch(focus, a.seed, a.tier, runs3, a.jobs, wall3, profile)
+        os.makedirs(os.path.join(ROOT, '.parts'), exist_ok=True)
+        for hs in (1, 4242):
+            pj = os.path.join(ROOT, '.parts', '%s-%d.json' % (focus, hs))
+            env = dict(os.environ, VERIF_HASHSEED=str(hs))
+            env.pop('DST_REEXEC', None)
+            env.pop('PYTHONHASHSEED', None)
+            cmd = [sys.executable, os.path.join(ROOT, 'check'), focus, '--tier', 'thorough', '--part-json', pj,
+                   '--runs', str(runs3), '--wall', str(wall3), '--seed', str(a.seed + hs)]
+            if a.jobs:
+                cmd += ['--jobs', str(a.jobs)]
+            pr = subprocess.run(cmd, env=env, capture_output=True, text=True, timeout=wall3 * 4 + 900)
+            sys.stdout.write(''.join(ln + '\n' for ln in pr.stdout.splitlines() if ln.startswith('VIOLATION')
+                                     or ln.startswith('  ') or ln.startswith('HARNESS')))
+            if pr.returncode not in (0, 1) or not os.path.exists(pj):
+                print("HARNESS-ERROR sub-batch hashseed=%d failed: rc=%s %s" % (hs, pr.returncode, pr.stderr[-300:]))
+                return 2
+            with open(pj) as f:
+                part = json.load(f)
+            os.remove(pj)
+            sub.append((hs, pr.returncode, part))
+    else:
+        total = batch(focus, a.seed, a.tier, a.runs, a.jobs, a.wall, profile)
     spec = engine.FOCUS[focus]
     rc = 0
     reported = []
@@ -316,8 +346,27 @@ def main(argv=None):
             if not ok:
                 print("  WARNING: minimised replay did not reproduce in a fresh interpreter")
         rc = 1
+    if a.part_json:
+        with open(a.part_json, 'w') as f:
+            json.dump({'stats': dict(total['stats']), 'status': dict(total['status']), 'guard': dict(total['guard']),
+                       'notes': dict(total['notes']), 'trans': sorted(total['trans']), 'evals': total['evals'],
+                       'steps': total['steps'], 'runs': total['runs'], 'capped': total['capped'],
+                       'reported': reported, 'samples': total['samples'][:1]}, f, default=repr)
+        return rc
+    for hs, prc, part in sub:
+        for k in ('stats', 'status', 'guard', 'notes'):
+            total[k].update(Counter(part[k]))
+        total['trans'] |= set(part['trans'])
+        for k in ('evals', 'steps', 'runs'):
+            total[k] += part[k]
+        total['capped'] = total['capped'] or part['capped']
+        reported.extend(part['reported'])
+        if prc == 1:
+            rc = 1
+            total['viols'].extend([None] * len(part['reported']))
     total['wall'] = time.time() - t0
     extra = dict(spec.get('evidence', {}))
+    extra['hashseeds'] = ['0'] + [str(hs) for hs, _, _ in sub]
     extra.setdefault('rule', 'seeded class-directed histories; distinct = distinct (model state digest, '
                              'operation class) transitions after which the focused oracle was evaluated')
     extra['known_findings_printed'] = known
